@@ -508,8 +508,47 @@ def _ctor_presorted(ctx, rep, ti, init):
         return
     tparams = [p for p in ti.ctor_table_params(init)]
     sorted_when_false = False
+    skipped = set()
+    rows = list(rows)
+
+    def _sorted_tables(sorts):
+        out = set()
+        for stmt, call in sorts:
+            app = call.app
+            tnode = app.over if app.over is not None else app.table
+            if tnode is None:
+                continue
+            for n in ast.walk(tnode):
+                if isinstance(n, ast.Name) and n.id in init.params and n.id != 'self':
+                    out.add(n.id)
+                    break
+        return out
+    # the tables that are sorted when presorted is false and nothing else is set: each of them needs its sort on every
+    # other path with presorted false as well
+    baseline = set()
+    for val, oc in rows:
+        if not val['presorted'] and all(not v for k, v in val.items() if k != 'presorted'):
+            baseline |= _sorted_tables(_effect_sort_apps(ctx, init, oc.effects))
     for val, oc in rows:
         sorts = _effect_sort_apps(ctx, init, oc.effects)
+        if not val['presorted'] and sorts and baseline - _sorted_tables(sorts):
+            lost = sorted(baseline - _sorted_tables(sorts))
+            cond = sorted(k for k, v in val.items() if k != 'presorted' and v)
+            about = False
+            for c in cond:
+                try:
+                    ce = ast.parse(c, mode='eval')
+                except SyntaxError:
+                    continue
+                if any(isinstance(x, ast.Name) and x.id in lost for x in ast.walk(ce)):
+                    about = True
+            key = 'presorted=False: no sort when ' + ' and '.join(cond)[:120]
+            if about and key not in skipped:
+                skipped.add(key)
+                rep.undecided('R11.3', init, key,
+                              'the sort of %s is skipped although presorted is false; the condition would have to establish that '
+                              'the input is ordered by the key the operator compares (same fields in the same order, ascending '
+                              'where the operator merges)' % ', '.join(lost), init.node)
         if val['presorted']:
             if sorts:
                 rep.violated('R11.3', init, 'presorted=True: %s' % norm(sorts[0][1]),
@@ -556,6 +595,28 @@ def _ctor_presorted(ctx, rep, ti, init):
         elif others_false:
             rep.violated('R11.3', init, 'presorted=False',
                          'no sort is applied although presorted is false (valuation %s)' % val, init.node)
+        else:
+            # presorted is false and the sort is skipped on some other condition (the input "is already sorted"): whether
+            # that condition establishes the order the operator needs is not something the shape of the code shows
+            cond = sorted(k for k, v in val.items() if k != 'presorted' and v)
+            key = 'presorted=False: no sort when ' + ' and '.join(cond)[:120]
+            # (a mode of the operator itself -- `key is None`: nothing to group by -- is not a claim about the input; a
+            # condition that inspects the table is)
+            tnames = {t[:-2] if t.endswith('[]') else t for t in tparams}
+            about_input = False
+            for c in cond:
+                try:
+                    ce = ast.parse(c, mode='eval')
+                except SyntaxError:
+                    continue
+                if any(isinstance(x, ast.Name) and x.id in tnames for x in ast.walk(ce)):
+                    about_input = True
+            if about_input and key not in skipped:
+                skipped.add(key)
+                rep.undecided('R11.3', init, key,
+                              'the sort is skipped although presorted is false; the condition would have to establish that the '
+                              'input is ordered by the key the operator compares (same fields in the same order, ascending where '
+                              'the operator merges)', init.node)
     _same_modulo_sort(ctx, rep, init, rows)
     if sorted_when_false:
         rep.held('R11.3', init, 'presorted ladder', 'sorts exactly when presorted is false', init.node)
